@@ -686,6 +686,20 @@ func (m *Model) ApplyCommitTime(o Op, r Res) {
 		if o.I < 0 {
 			return
 		}
+	case "SMove1", "SMove2":
+		// a move that was accepted (against the committed state) is logged as two independent records, "remove from
+		// the source" and "add to the destination": at Commit the removal is skipped if the member is gone by
+		// then, the addition is applied regardless
+		if r.V == "true" {
+			b2 := o.B
+			if o.K == "SMove2" {
+				b2 = o.B2
+			}
+			delete(m.S[o.B][k], string(o.Val))
+			m.setFor(b2, string(o.Key2))
+			m.S[b2][string(o.Key2)][string(o.Val)] = true
+		}
+		return
 	}
 	m.Apply(o, r)
 }
